@@ -61,7 +61,7 @@ def reproduces(nat: Dict[str, Any]) -> bool:
 def write_replay(prop: str, h: Harness, module: str, tier: str, args: Dict[str, Any], nat: Dict[str, Any]) -> str:
     blob = json.dumps(args, sort_keys=True)
     hid = hashlib.sha1((h.name + blob).encode()).hexdigest()[:10]
-    path = os.path.join(ROOT, "replays", f"{prop}-{h.name}-{hid}.json")
+    path = os.path.join(os.environ.get("VERIF_REPLAY_DIR") or os.path.join(ROOT, "replays"), f"{prop}-{h.name}-{hid}.json")
     os.makedirs(os.path.dirname(path), exist_ok=True)
     with open(path, "w") as f:
         json.dump({"property": prop, "module": module, "key": f"{prop}.{h.name}", "tier": tier, "args": args,
@@ -273,8 +273,9 @@ def check(prop: str, tier: str, seed: int, only: Optional[str] = None) -> int:
             "claims hold only inside the stated bounds (string lengths, integer ranges, selector grammars)"}),
         "wall_s": round(wall, 2), "violations": violations,
     }
-    os.makedirs(os.path.join(ROOT, "evidence"), exist_ok=True)
-    with open(os.path.join(ROOT, "evidence", f"{prop}.json"), "w") as f:
+    evdir = os.environ.get("VERIF_EVIDENCE_DIR") or os.path.join(ROOT, "evidence")  # redirected only by tools/selftest.py
+    os.makedirs(evdir, exist_ok=True)
+    with open(os.path.join(evdir, f"{prop}.json"), "w") as f:
         json.dump(ev, f, indent=1, sort_keys=False)
         f.write("\n")
 
